@@ -98,7 +98,7 @@ func (g *G) wildLeaf(o WildOpts) xast.Expr {
 	case 0, 1:
 		return &xast.Num{Lit: g.pick([]string{"0", "1", "2", "3", "1.5", "10"}, "wnum")}
 	case 2, 3:
-		return &xast.Str{S: g.pick([]string{"", "a", "1", "x y", "t", "("}, "wstr")}
+		return &xast.Str{S: g.pick([]string{"", "a", "1", "x y", "t", "(", "abc", "é", "中文x", "a\u00a0", "ab", "1e3", " 2 "}, "wstr")}
 	case 4:
 		if o.Vars {
 			return &xast.Var{Name: g.pick([]string{"x", "y"}, "wvar")}
